@@ -63,6 +63,8 @@ type Exec struct {
 	pc         []*Term
 	steps      int
 	maxSteps   int
+	deadlineAt    int // armed step deadline (0 = none), see zzsym.StepDeadline
+	deadlineLabel string
 	depth      int
 	inputs     []inputVar
 	inputSet   map[string]bool
@@ -302,7 +304,9 @@ func (ex *Exec) chooseAmong(cands []int) int {
 
 func (ex *Exec) fresh(prefix string, sort Sort) *Term {
 	ex.freshCnt++
-	return Var(fmt.Sprintf("%s!%s!%d", ex.harness, prefix, ex.freshCnt), sort)
+	// the sort is part of the name: one solver serves many paths, and the n-th fresh
+	// value of one path need not have the sort of the n-th of another
+	return Var(fmt.Sprintf("%s!%s.%d.%d!%d", ex.harness, prefix, sort.K, sort.W, ex.freshCnt), sort)
 }
 
 func (ex *Exec) runtimeErrorString() types.Type { return ex.eng.runtimeErrorString }
@@ -562,6 +566,11 @@ func (ex *Exec) runFrame(fr *frame) {
 		}
 		for _, instr := range nonPhis {
 			ex.steps++
+			if ex.deadlineAt != 0 && ex.steps > ex.deadlineAt {
+				ex.deadlineAt = 0
+				ex.recordViolation(ex.deadlineLabel, fmt.Sprintf("still running (not blocked, no progress to a return) after the step deadline, in %s", fr.fn), nil)
+				ex.end("violated", "step deadline exceeded: "+ex.deadlineLabel)
+			}
 			if ex.steps > ex.maxSteps {
 				ex.end("budget", fmt.Sprintf("step budget %d exceeded in %s", ex.maxSteps, fr.fn))
 			}
